@@ -26,7 +26,8 @@ ASSUMPTIONS = [
     'tolerances: covariance 64 eps (max|x|^2+1) (x n for real-valued traces); scores: first-order propagation through the pseudo-inverse (cond x relative covariance error)',
 ]
 
-POOL = [[0, 1], [0, 1, 2], [2, 0, 1], [0, 1, 2, 3], [3, 1, 0, 2], [0, 2, 5], [7, 3], [0, 1, 2, 3, 4, 5, 6, 7, 8], [4, 260, 17], [5, 1, 9, 300, 2]]
+POOL = [[0, 1], [0, 1, 2], [2, 0, 1], [0, 1, 2, 3], [3, 1, 0, 2], [0, 2, 5], [7, 3], [0, 1, 2, 3, 4, 5, 6, 7, 8], [4, 260, 17], [5, 1, 9, 300, 2],
+        [-2, -1, 0, 1, 2], [-4, -3, -2, -1, 0], [1, -1, 0], [-300, 5, -7]]         # signed intermediate values (e.g. a centred Hamming weight): classes may be negative
 
 
 def _mk_attack(case, build_traces, build_lab):
@@ -313,7 +314,7 @@ def cases(draw, attack, precision, tdtypes, pool_seed=0):
         bt[:, L - 1] = bt[0, L - 1]
     elif degenerate == 'dup_scaled' and not isint:
         bt[:, L - 1] = (bt[:, 0].astype('float64') * 0.5 + 1).astype(tdt)
-    ddt = draw(st.sampled_from([d for d in gen.CLASS_DTYPES if int(lab.max()) <= np.iinfo(d).max]))
+    ddt = draw(st.sampled_from([d for d in gen.CLASS_DTYPES if int(lab.max()) <= np.iinfo(d).max and int(lab.min()) >= np.iinfo(d).min]))
     sibling = draw(st.sampled_from([False, False, True]))
     nm = 2 if sibling else draw(st.integers(1, 2))
     matching = []
